@@ -181,11 +181,11 @@ func (r *funcRun) execBlock(st *State, b *ssa.BasicBlock, pred *ssa.BasicBlock) 
 			r.emitGoal(st, "inv-entry", fmt.Sprintf("=loop%d.%s", ord, clauseID(inv, k)), inv.Props, inv.Expr, nil, r.old, r.baseVars(st), inv.Src)
 			st.assume(r.evalBool(st, inv.Expr, r.old, nil, inv.Src))
 		}
-		// havoc
+		// havoc (allocation counter first: the new versions may hold references allocated in the loop)
+		st.bumpAlloc()
 		for _, c := range r.loopWrites(b) {
 			st.havocComp(c)
 		}
-		st.bumpAlloc()
 		hv := make([]Value, len(phis))
 		for i, p := range phis {
 			hv[i] = r.v.freshValue(st, "phi_"+p.Comment+"_"+p.Name(), p.Type())
@@ -910,6 +910,7 @@ func (r *funcRun) rangeOp(st *State, x *ssa.Range) {
 		st.setComp(name, sig, fmt.Sprintf("(store %s %s ((as const %s) false))", cur, it.S, arraySort(string(mi.ksort), "Bool")))
 		st.regs[x.Name()] = it
 		st.names["$iter"] = it
+		st.ntypes["$iter"] = tInt
 		return
 	}
 	// string iteration: abstract iterator
@@ -946,5 +947,6 @@ func (r *funcRun) nextOp(st *State, x *ssa.Next) {
 	val := r.v.mapValRead(st, nil, mi, m, kk)
 	r.assumeInv(st, val, mt.Elem())
 	st.names["$key"] = kk
+	st.ntypes["$key"] = mt.Key()
 	st.regs[x.Name()] = &TupleVal{E: []Value{ok, kk, val}}
 }
